@@ -143,7 +143,7 @@ bool buffer::trim(size_t len)
 		}
 		void (*fini)(void *);
 		if ((fini = traits->fini)) {
-			uint8_t *base = static_cast<uint8_t *>(static_cast<void *>(this + 1)) + len;
+			uint8_t *base = static_cast<uint8_t *>(static_cast<void *>(this + 1));
 			for (size_t i = len; i < used; i += size) {
 				fini(base + i);
 			}
